@@ -122,6 +122,7 @@ type probeEnumVal struct {
 	MErr string
 	Back string
 	UErr string
+	Held string // non-empty: the text taken before the other values were rendered no longer parses to this value
 }
 type probeDialect struct {
 	Pkg     string
@@ -225,6 +226,7 @@ func probeDialectFn(pkg string, d *dialect.Dialect) map[string]interface{} {
 type enumFns struct {
 	marshal func(uint64) (string, string, error)
 	unmarshal func(string) (uint64, error)
+	raw func(uint64) ([]byte, error) // MarshalText's result as returned, not copied
 }
 
 func probeEnum(fns enumFns, vals []uint64, rejects []string) ([]map[string]string, []string) {
@@ -238,6 +240,19 @@ func probeEnum(fns enumFns, vals []uint64, rejects []string) ([]map[string]strin
 		e["Back"] = fmt.Sprint(back)
 		if uerr != nil { e["UErr"] = uerr.Error() }
 		out = append(out, e)
+	}
+	// texts are values of their own: all of them are taken first, uncopied, and parsed afterwards
+	raws := make([][]byte, len(vals))
+	for i, v := range vals {
+		if out[i]["MErr"] != "" || out[i]["UErr"] != "" { continue }
+		raws[i], _ = fns.raw(v)
+	}
+	for i, v := range vals {
+		if raws[i] == nil { continue }
+		back, err := fns.unmarshal(string(raws[i]))
+		if err != nil || back != v {
+			out[i]["Held"] = fmt.Sprintf("text %q parses to %d (err %v)", raws[i], back, err)
+		}
 	}
 	var accepted []string
 	for _, r := range rejects {
@@ -320,7 +335,7 @@ func writeProbe(root string, batch []XDialect, pkgDirs []string) {
 			for _, r := range rej {
 				rs = append(rs, fmt.Sprintf("%q", r))
 			}
-			fmt.Fprintf(&b, "\t\t{\n\t\t\tres, acc := probeEnum(enumFns{\n\t\t\t\tmarshal: func(v uint64) (string, string, error) { e := p%d.%s(v); t, err := e.MarshalText(); return string(t), e.String(), err },\n", i, n)
+			fmt.Fprintf(&b, "\t\t{\n\t\t\tres, acc := probeEnum(enumFns{\n\t\t\t\tmarshal: func(v uint64) (string, string, error) { e := p%d.%s(v); t, err := e.MarshalText(); return string(t), e.String(), err },\n\t\t\t\traw: func(v uint64) ([]byte, error) { return p%d.%s(v).MarshalText() },\n", i, n, i, n)
 			fmt.Fprintf(&b, "\t\t\t\tunmarshal: func(s string) (uint64, error) { var e p%d.%s; err := e.UnmarshalText([]byte(s)); d := p%d.%s(0xFFFF0F); derr := d.UnmarshalText([]byte(s)); if err == nil && (derr != nil || d != e) { return uint64(d), fmt.Errorf(\"result depends on the previous value of the destination: %%d vs %%d\", uint64(e), uint64(d)) }; return uint64(e), err },\n\t\t\t}, []uint64{%s}, []string{%s})\n", i, n, i, n, strings.Join(vs, ","), strings.Join(rs, ","))
 			fmt.Fprintf(&b, "\t\t\tenums[%q] = res\n\t\t\trejects[%q] = acc\n\t\t}\n", n, n)
 		}
@@ -473,6 +488,9 @@ func compareEnums(d XDialect, p probeDialect) error {
 			}
 			if pv.Str != pv.Text {
 				return fmt.Errorf("enum %s: String()=%q, MarshalText=%q", n, pv.Str, pv.Text)
+			}
+			if pv.Held != "" {
+				return fmt.Errorf("enum %s: the text of value %d, taken before the texts of the other probed values, changed afterwards: %s", n, val, pv.Held)
 			}
 			if pv.UErr != "" || pv.Back != pv.V {
 				return fmt.Errorf("enum %s (bitmask=%v): value %d renders as %q which parses to %s (err %q)", n, bitmask[n], val, pv.Text, pv.Back, pv.UErr)
